@@ -15,7 +15,7 @@ PKG = "vcr/verifier"
 HARNESS = ["vcr/verifier/zz_verif_c01_test.go"]
 
 REQUIRED = ["check_order_irrelevant_for_accept", "valid_only_if", "key_is_from_the_issuers_document",
-            "vp_valid_only_if", "vp_every_other_credential_is_signature_checked", "fact_check_signature_flag_is_per_credential", "untrust_is_effective", "untrusted_issuer_is_rejected", "fact_trust_store_code", "fact_wiring", "fact_key_lookup_iterates_the_relationship", "fact_status_list_renewal_loads_revocations", "fact_status_list_refresh_replaces_all_columns", "api_vc_valid_only_if", "wallet_lists_only_current_unrevoked", "wallet_validate_ok", "vp_check_order_irrelevant_for_accept", "empty_presentation_holder_is_not_checked",
+            "vp_valid_only_if", "vp_every_other_credential_is_signature_checked", "fact_check_signature_flag_is_per_credential", "untrust_is_effective", "untrusted_issuer_is_rejected", "fact_trust_store_code", "fact_wiring", "fact_verifier_is_stateless", "fact_strict_mode_fixes_the_contexts", "fact_key_lookup_iterates_the_relationship", "fact_status_list_renewal_loads_revocations", "fact_status_list_refresh_replaces_all_columns", "api_vc_valid_only_if", "wallet_lists_only_current_unrevoked", "wallet_validate_ok", "vp_check_order_irrelevant_for_accept", "empty_presentation_holder_is_not_checked",
             "tamper_evident", "tamper_evident_jwt", "tamper_evident_vp", "undefined_member_unsigned",
             "own_output_verifies_ld", "own_output_verifies_jwt", "own_presentation_verifies",
             "fact_verify_check_sequence", "fact_doVerifyVP_check_sequence", "fact_jsonldProof_check_sequence",
@@ -148,6 +148,11 @@ def run(ctx):
         b = bases.get(ops[i].get("base"))
         if b and b[0] != i:
             pre.append(ops_raw[b[0]])   # the unmodified document the mutant is compared with
+        # the history of this very document on the long-lived verifier (a verdict may depend on what was verified before)
+        txt = ops[i].get("text")
+        if txt:
+            same = [k for k in range(start, i) if ops[k].get("text") == txt and ops[k].get("op") in ("vc", "vp") and not (b and k == b[0])]
+            pre += [ops_raw[k] for k in same[-40:]]
         return "\n".join(pre + [ops_raw[i]]) + "\n"
 
     # ---------------- direct oracles on the implementation's outputs
@@ -237,6 +242,14 @@ def run(ctx):
                               "wallet-present.jsonl", replay_text(i))
     ctx.oblige("oracle:api-handlers/wallet/tampered-revocations(impl)", edge_bad == 0 and (n_edge > 0 or bool(ctx.replay)), f"{edge_bad} wrong of {n_edge}")
 
+    # strict mode: a document that brings its own (unlisted) context is never reported valid
+    rc = [i for i, op in enumerate(ops) if op.get("mut") == "remote-context"]
+    rc_ok = [i for i in rc if impl[i].startswith("ok")]
+    for i in rc_ok:
+        ctx.violation("C01:document-with-unlisted-remote-context-reported-valid-in-strict-mode", f"{ops[i]['label']} is reported valid by the node as configured at start-up (strict mode)",
+                      "remote-context.jsonl", replay_text(i))
+    ctx.oblige("oracle:strict-mode-refuses-unlisted-contexts(impl)", not rc_ok and (len(rc) > 0 or bool(ctx.replay)), f"{len(rc_ok)} accepted of {len(rc)}")
+
     # a JWT whose algorithm does not fit the curve of the signing key is never reported valid
     misfit = sum(1 for i, op in enumerate(ops) if op.get("mut") == "alg-key-mismatch")
     misfit_ok = [i for i, op in enumerate(ops) if op.get("mut") == "alg-key-mismatch" and impl[i].startswith("ok")]
@@ -291,6 +304,9 @@ def run(ctx):
     def vc_reasons(d, op, check_sig):
         at_ms = op["at"]
         why = []
+        if op.get("via") == "sig":   # VerifySignature: the signature conjuncts only
+            full = vc_reasons(d, dict(op, via=""), True)
+            return [w for w in full if w in ("key-id-not-of-issuer", "not-signed-by-an-assertion-key-of-the-issuer-at-validation-time", "jwt-outside-window", "proof-outside-window")]
         if d["issued"] > at_ms + 5000 or (d.get("expires") is not None and at_ms - 5000 > d["expires"]):
             why.append("outside-validity-window")
         if d.get("id") in state["revoked"]:
